@@ -32,6 +32,7 @@ EXTRA_TARGETS = ['Proofs/RegistryTie.vo']
 TMP = '/tmp/C11/ledgers'
 
 ASSUMPTIONS = [
+    'tie by translation, group envledger (C11_source_open_date .. C11_source_any_meta, Gen/SrcEnvLedger.v): dict.get and attribute reads on directives are the primitives of Model/PrimsEnvLedger.v / PrimsLedger.v; context.tables[\'accounts\'].accounts and [\'commodities\'].commodities are parameters holding the dicts the model builds (accounts_iter, commodities_dict); getitem operands are opaque children; that the compiler rewrites meta/entry_meta/any_meta into these getitem forms is checked by the correspondence run, not by the translation',
     'the property starts from the entries the connection holds: Beancount\'s parser, booking, padding and '
     'validation (upstream of the tables) are not modelled; text ledgers only diversify the inputs',
     'the id column is compared against beancount.core.compare.hash_entry of the row\'s own directive, carried '
@@ -1167,6 +1168,11 @@ def generate():
     from . import gen_src
     out.update(gen_src.generate('ledger_tables'))
     out['src_ledger_tables_encoding'] = _encoding_census()
+    # group `envledger` (C11_source_open_date .. C11_source_any_meta): the same generated file as C12's hook writes
+    # (atomic write of identical text), so that C11 alone re-checks the metadata functions against the current source
+    from . import src_envledger
+    out.update(gen_src.generate('envledger'))
+    out.update(src_envledger.report())
     return out
 
 
